@@ -183,12 +183,12 @@ pub proof fn lemma_membership(s: Raw, a: Seq<char>, new: Option<u64>, h: u64, to
 @fn contracts/cw4-stake/src/contract.rs update_membership [closures: 2]
 @requires
     inv(old(storage).view()), config_of(old(storage).view()) == Some(*cfg)
-@ensures C10.membership_weight_follows_stake C09
+@ensures C10.membership_weight_follows_stake C09 C06
     r is Ok ==> weight_fits(new_stake@, *cfg)
         && step_membership(old(storage).view(), final(storage).view(), sender@, weight_u64(new_stake@, *cfg), height)
 @ensures C14.membership_notifies_truthfully
     r is Ok ==> membership_msgs_ok(old(storage).view(), r->Ok_0@, sender@, weight_u64(new_stake@, *cfg))
-@ensures C09.membership_inv C14
+@ensures C09.membership_inv C14 C06
     r is Ok ==> inv(final(storage).view())
 @replace E8 "total + new.unwrap_or_default() - old.unwrap_or_default()" 1
     rt_sub_u64(rt_add_u64(total, new.unwrap_or_default()), old.unwrap_or_default())
@@ -304,9 +304,9 @@ pub proof fn lemma_claims_set(s: Raw, a: Seq<char>, c: Seq<Claim>)
 @fn contracts/cw4-stake/src/contract.rs execute_bond [closures: 1]
 @requires
     inv(old(deps.storage).view())
-@ensures C10.bond_exact C09 C14
+@ensures C10.bond_exact C09 C14 C06
     r is Ok ==> step_bond(old(deps.storage).view(), final(deps.storage).view(), sender@, amount, env.block.height)
-@ensures C09.bond_inv C10
+@ensures C09.bond_inv C10 C06
     r is Ok ==> inv(final(deps.storage).view())
 @ensures C14.bond_notifies_hooks
     r is Ok ==> exists|amt: Uint128| #[trigger] accepted(config_of(old(deps.storage).view())->Some_0, amount, amt)
@@ -331,10 +331,10 @@ pub proof fn lemma_claims_set(s: Raw, a: Seq<char>, c: Seq<Claim>)
 @fn contracts/cw4-stake/src/contract.rs execute_receive
 @requires
     inv(old(deps.storage).view())
-@ensures C10.receive_only_configured_token C09 C14
+@ensures C10.receive_only_configured_token C09 C14 C06
     r is Ok ==> step_bond(old(deps.storage).view(), final(deps.storage).view(), wrapper.sender@,
         Balance::Cw20(Cw20CoinVerified { address: info.sender, amount: wrapper.amount }), env.block.height)
-@ensures C09.receive_inv C10
+@ensures C09.receive_inv C10 C06
     r is Ok ==> inv(final(deps.storage).view())
 @ensures C14.receive_notifies_hooks
     r is Ok ==> exists|amt: Uint128| #[trigger] accepted(config_of(old(deps.storage).view())->Some_0, Balance::Cw20(Cw20CoinVerified { address: info.sender, amount: wrapper.amount }), amt)
@@ -344,9 +344,9 @@ pub proof fn lemma_claims_set(s: Raw, a: Seq<char>, c: Seq<Claim>)
 @fn contracts/cw4-stake/src/contract.rs execute_unbond [closures: 1]
 @requires
     inv(old(deps.storage).view())
-@ensures C10.unbond_exact C09 C14
+@ensures C10.unbond_exact C09 C14 C06
     r is Ok ==> step_unbond(old(deps.storage).view(), final(deps.storage).view(), info.sender@, amount, &env.block)
-@ensures C09.unbond_inv C10
+@ensures C09.unbond_inv C10 C06
     r is Ok ==> inv(final(deps.storage).view())
 @ensures C14.unbond_notifies_hooks
     r is Ok ==> membership_msgs_ok(old(deps.storage).view(), r->Ok_0.messages@, info.sender@,
@@ -379,7 +379,7 @@ pub proof fn lemma_claims_set(s: Raw, a: Seq<char>, c: Seq<Claim>)
 @ensures C10.claim_pays_matured_once
     r is Ok ==> r->Ok_0.messages@.len() == 1 && is_payout(r->Ok_0.messages@[0], config_of(old(deps.storage).view())->Some_0, info.sender@,
         matured_total(claims_of(old(deps.storage).view(), "claims"@, info.sender@), &env.block))
-@ensures C09.claim_inv
+@ensures C09.claim_inv C06
     r is Ok ==> inv(final(deps.storage).view())
 @prefix
     broadcast use cw4_axioms, string_conv, msg_conv, opt_conv;
@@ -393,7 +393,7 @@ pub proof fn lemma_claims_set(s: Raw, a: Seq<char>, c: Seq<Claim>)
 @fn contracts/cw4-stake/src/contract.rs instantiate
 @requires
     old(deps.storage).view() == SMap::<Seq<u8>, Seq<u8>>::empty()
-@ensures C09.instantiate_inv C10 C14
+@ensures C09.instantiate_inv C10 C14 C06
     r is Ok ==> inv(final(deps.storage).view()) && books(final(deps.storage).view()) == 0
         && config_of(final(deps.storage).view())->Some_0.min_bond.0 >= 1
 @ensures C14.instantiate_admin_as_given
@@ -457,9 +457,9 @@ pub proof fn lemma_same_but5(s: Raw, t: Raw, k: Seq<u8>)
 @fn contracts/cw4-stake/src/contract.rs execute
 @requires
     inv(old(deps.storage).view())
-@ensures C10.execute_step C09 C14
+@ensures C10.execute_step C09 C14 C06
     r is Ok ==> step_msg(old(deps.storage).view(), final(deps.storage).view(), info.sender, info.funds, &env.block, msg)
-@ensures C09.execute_inv C10
+@ensures C09.execute_inv C10 C06
     r is Ok ==> inv(final(deps.storage).view())
 @ensures C14.execute_dispatch_msgs C10
     r is Ok ==> match msg {
@@ -592,7 +592,7 @@ pub proof fn lemma_waiting_total(c: Seq<Claim>, b: &BlockInfo)
 pub open spec fn str_cursor(c: Option<String>) -> Option<Seq<u8>> { match c { Some(s) => Some(utf8(s@)), None => None } }
 
 @fn contracts/cw4-stake/src/contract.rs list_members [closures: 2]
-@ensures C20.list_members_page C09
+@ensures C20.list_members_page C09 C06
     r is Ok ==> ({
         let pg = page(listing(deps.storage.view(), "members"@, Seq::<u8>::empty(), false), str_cursor(start_after), limit);
         r->Ok_0.members@.len() == pg.len() && forall|i: int| 0 <= i < pg.len() ==> utf8((#[trigger] r->Ok_0.members@[i]).addr@) == pg[i].0
